@@ -1,5 +1,6 @@
 import RavenModel.Model.Blob
 import RavenModel.Gen.Facts
+import RavenModel.Model.Plan
 /-! # C15 — out-of-line blob storage and de-duplication are invisible to readers -/
 namespace Raven.Props.C15
 open Raven Raven.Blob
@@ -73,5 +74,14 @@ theorem old_read_silently_empty : readPartOld .s3 true false = .empty ∧ readPa
 every run: every call of `Retrieve`, and whether it is followed by `if err != nil { return …, err }`) — a new read site, or
 one that looks at the error only to skip the content, breaks this. -/
 theorem read_errors_handed_on : Gen.retrieveSites = [((b!"parser.LoadBlobContent"), true)] := by decide
+
+/-- C15.5  content that is shared is never taken away under a reader: removing messages — EXPUNGE, UID EXPUNGE, CLOSE, DELETE
+of a mailbox — touches no row of the shared blob table (the message rows that reference the content stay, and so does the
+content; `refcount_exact` counts stores, nothing decrements). A removal that released blob references by the wrong key would
+empty *another* store's messages. Plans regenerated from /repo on every run. -/
+theorem plan_removal_keeps_blobs :
+    [(b!"message.HandleExpunge"), (b!"uid.handleUIDExpunge"), (b!"selection.HandleClose"), (b!"mailbox.HandleDelete")].all (fun f =>
+      !(Plan.trace f).isEmpty && Plan.free (b!"blobs") (Plan.trace f) && Plan.free (b!"Blob") (Plan.trace f)) = true := by
+  decide
 
 end Raven.Props.C15
